@@ -265,6 +265,10 @@ def handle (j : Json) : Except String Json := do
     pure (okJ (match RegexpText.parseSimple (← getStr j "text") with | none => Json.null | some r => encRegexp r))
   | "regexp_parse_full" => do
     pure (okJ (match RegexpText.parseFull (← getStr j "text") with | none => Json.null | some r => encRegexp r))
+  | "parse_simple_cfg" => do
+    pure (exc (fun (r : CFG × String) => Json.mkObj [("G", encCFG r.1), ("eps", Json.str r.2)]) (CfgText.parseSimpleCfg (← getStr j "text").toList))
+  | "print_simple_cfg" => do
+    pure (exc Json.str (CfgText.printSimpleCfg (← decCFG (← j.getObjVal? "G"))))
   | _ => throw s!"unknown op {op}"
 
 partial def loop (h : IO.FS.Stream) (out : IO.FS.Stream) : IO Unit := do
